@@ -26,7 +26,10 @@ def features(case, fmt):
             "format_family": "atlas" if fmt.startswith("atlas") else "foreign",
             "has_sq": "'" in w, "has_dq": '"' in w, "has_bs": "\\" in w, "has_nl": "\n" in w,
             "has_sq_or_bs": "'" in w or "\\" in w,
-            "has_semicolon_newline": ";\n" in w, "has_bs_before_backtick": "\\`" in w, "content": w}
+            "has_semicolon_newline": ";\n" in w, "has_bs_before_backtick": "\\`" in w,
+            # looks like an already quoted literal whose closing quote is escaped by a backslash ('\' or "\")
+            "quoted_lookalike_escaped_closing_quote": len(w) >= 3 and w[0] in "'\"" and w[-1] == w[0] and w[-2] == "\\" and (len(w) - len(w[:-1].rstrip("\\")) - 0) % 2 == 0,
+            "content": w}
 
 
 def run(tier):
@@ -40,7 +43,7 @@ def run(tier):
     pf = vf.tlc("PlanFile", "PlanFile.cfg", heap="4g", timeout=600)
     if not pf.ok:
         raise vf.Infra("PlanFile.tla round-trip property fails on the model")
-    r = vf.tlc("LexerContents", "LexerContents.cfg", defines={"NQ": nq}, keep=True, timeout=600)
+    r = vf.tlc("LexerContents", "LexerContents.cfg", defines={"NQ": nq, "QQ": 3 if tier == "quick" else 4}, keep=True, timeout=600)
     d = vf.scratch("c07")
     try:
         trace = os.path.join(d, "t.ndjson")
@@ -49,7 +52,7 @@ def run(tier):
         if p.returncode != 0:
             raise vf.Infra("roundtrip failed: " + p.stderr[-2000:])
         info = json.loads(p.stdout)
-        viols, events, _ = vf.monitor_trace("PlanFileTrace", "PlanFileTrace.cfg", trace, max_events=20000)
+        viols, events, _ = vf.monitor_trace("PlanFileTrace", "PlanFileTrace.cfg", trace, max_events=20000, independent=True)
         capped = len(viols) >= 600
         full = open(trace + ".full").read().split("\n") if viols else []
         for oid, name in viols:
@@ -78,7 +81,7 @@ def run(tier):
     v.cov = {"states": 3 * 2 * ncontents + 813, "transitions": 3 * 2 * ncontents + 813,
              "traces_validated_against_impl": events - len(viols) + imp["ok"],
              "quote_safety_contents_checked_by_tlc": ncontents, "planfile_plans_checked_by_tlc": 813,
-             "observations": events, "cases": info["cases"], "cases_by_kind": info["cases_by_kind"], "skipped_by_hcl": info["skipped_by_hcl"],
+             "observations": events, "cases": info["cases"], "cases_by_kind": info["cases_by_kind"], "skipped_by_hcl": info["skipped_by_hcl"], "planner_refusals": info.get("planner_refusals", 0),
              "import_cases": imp["n"], "content_length": nq,
              "explanation": "states = reference evaluations by TLC (QuoteSafety over all contents x 3 quote kinds x 2 option sets; PlanFile round trip over 813 plans); "
                             "observations = (content x position x dialect x formatter) round trips validated by PlanFileTrace.tla"}
